@@ -1,6 +1,6 @@
 (* Property C11 -- a crash during a snapshot never damages previously persisted data (false of the faithful model at the recorded sites; the characterisation of the crash states and the witnesses are proved) *)
 (* Statements only: each theorem restates the proved lemma's statement and is closed by [exact]. *)
-From NunDB Require Import Model.Base Model.Parse Model.Node Model.Disk Proofs.CrashProofs.
+From NunDB Require Import Model.Base Model.Parse Model.Node Model.Disk Proofs.DiskProofs Proofs.CrashProofs Proofs.CrashFrame.
 Local Open Scope list_scope.
 
 (* a kill leaves a prefix of the snapshot's file operations applied *)
@@ -82,3 +82,109 @@ Theorem C11_start_panics_refuted :
   w_crash w_recl ["a"; "b"; "$connections"; "$$token"] ScUnlink 1 = RStartPanic.
 Proof. exact C11_start_panics_refuted. Qed.
 Print Assumptions C11_start_panics_refuted.
+
+(* UNBOUNDED, FRAME THEOREM: at EVERY crash point of an incremental snapshot (any prefix of its file operations) the next start does not panic and every key the snapshot does not touch loads with its persisted value, version and addresses (key names that are runs of NUL bytes excluded, see the next theorem) *)
+Theorem C11_incr_untouched_keys_survive_total :
+  forall (d : db) (order : list str) (fs : files) (clock : N) (p : list fop) 
+           (clk : N) (k : string) (mv : value),
+         DiskInv (d_map d) fs ->
+         lprefix p (incr_plan d order fs clock) ->
+         (fsize (apply_fops fs (incr_plan d order fs clock)) FVals < two64)%N ->
+         fget fs FKeys <> None ->
+         assoc_get String.eqb k (d_map d) = Some mv ->
+         v_st mv = VOk ->
+         not_nul_run k ->
+         exists (m : list (str * value)) (clk' : N) (mv' : value),
+           load_db (apply_fops fs p) clk = Some (LOk m clk') /\
+           assoc_get String.eqb k m = Some mv' /\ same_entry mv mv'.
+Proof. exact C11_incr_untouched_keys_survive_total. Qed.
+Print Assumptions C11_incr_untouched_keys_survive_total.
+
+Theorem C11_incr_untouched_keys_survive :
+  forall (d : db) (order : list str) (fs : files) (clock : N) (p : list fop) 
+           (clk : N) (m : list (str * value)) (clk' : N) (k : string) (mv : value),
+         DiskInv (d_map d) fs ->
+         lprefix p (incr_plan d order fs clock) ->
+         load_db (apply_fops fs p) clk = Some (LOk m clk') ->
+         assoc_get String.eqb k (d_map d) = Some mv ->
+         v_st mv = VOk ->
+         not_nul_run k -> exists mv' : value, assoc_get String.eqb k m = Some mv' /\ same_entry mv mv'.
+Proof. exact C11_incr_untouched_keys_survive. Qed.
+Print Assumptions C11_incr_untouched_keys_survive.
+
+(* the same for the harness's crash points (kill on entering the i-th call of a kind) *)
+Theorem C11_incr_untouched_keys_survive_kill :
+  forall (d : db) (order : list str) (fs : files) (clock : N) (s : sysc) (i : nat) 
+           (clk : N) (m : list (str * value)) (clk' : N) (k : string) (mv : value),
+         DiskInv (d_map d) fs ->
+         load_db (apply_fops fs (take_before s i (incr_plan d order fs clock))) clk = Some (LOk m clk') ->
+         assoc_get String.eqb k (d_map d) = Some mv ->
+         v_st mv = VOk ->
+         not_nul_run k -> exists mv' : value, assoc_get String.eqb k m = Some mv' /\ same_entry mv mv'.
+Proof. exact C11_incr_untouched_keys_survive_kill. Qed.
+Print Assumptions C11_incr_untouched_keys_survive_kill.
+
+(* no crash point of an incremental snapshot makes the next start panic (values file exists, sizes below 2^64) *)
+Theorem C11_incr_no_panic :
+  forall (d : db) (order : list str) (fs : files) (clock : N) (p : list fop) (clk : N),
+         DiskInv (d_map d) fs ->
+         lprefix p (incr_plan d order fs clock) ->
+         (fsize (apply_fops fs (incr_plan d order fs clock)) FVals < two64)%N ->
+         (fget (apply_fops fs p) FKeys <> None -> fget (apply_fops fs p) FVals <> None) ->
+         load_db (apply_fops fs p) clk <> Some LPanic.
+Proof. exact C11_incr_no_panic. Qed.
+Print Assumptions C11_incr_no_panic.
+
+(* every crash state: values file append-only; keys file changed only inside the 12-byte fields of touched keys and by appended bytes *)
+Theorem C11_incr_prefix_files :
+  forall (d : db) (order : list str) (fs : files) (clock : N) (p : list fop),
+         DiskInv (d_map d) fs ->
+         lprefix p (incr_plan d order fs clock) ->
+         exists (recs recs' : list arec) (A B : string) (VS : list str),
+           fcontent fs FKeys = kcat recs /\
+           fcontent (apply_fops fs p) FVals = fcontent fs FVals +++ B /\
+           fcontent (apply_fops fs p) FKeys = kcat recs' +++ A /\
+           Forall2 (frame1 (d_map d) (fcontent fs FVals) VS) recs recs'.
+Proof. exact incr_prefix_files. Qed.
+Print Assumptions C11_incr_prefix_files.
+
+Theorem C11_incr_plan_shape :
+  forall (d : db) (order : list str) (fs : files) (clock : N),
+         DiskInv (d_map d) fs ->
+         exists (recs : list arec) (body : list fop),
+           fcontent fs FKeys = kcat recs /\
+           incr_plan d order fs clock = plan_open4 d ++ body ++ close_tail fs /\
+           Forall (incr_body_op (d_map d) recs) body.
+Proof. exact incr_plan_shape. Qed.
+Print Assumptions C11_incr_plan_shape.
+
+(* non-vacuity: a database with an updated, an untouched and a new 300-byte key; all 11 cuts load and keep the untouched key *)
+Theorem C11_frame_demo :
+  forall (i : nat) (m : list (str * value)) (c : N),
+         load_db (apply_fops demo_fs (firstn i demo_plan)) 7 = Some (LOk m c) ->
+         exists mv' : value, assoc_get String.eqb "b" m = Some mv' /\ v_val mv' = "2" /\ v_ver mv' = 0%Z.
+Proof. exact C11_frame_demo. Qed.
+Print Assumptions C11_frame_demo.
+
+(* REFUTED corner: an untouched key made only of NUL bytes can be overwritten by a torn record of the same length (the loader's zeroed buffer); outside the quantifier's key alphabet, recorded as an observation *)
+Theorem C11_nul_key_overwritten_refuted :
+  DiskInv (ds_mem nul_state) (ds_files nul_state) /\
+         option_map (fun v : value => (v_val v, v_st v)) (assoc_get String.eqb nul_key (ds_mem nul_state)) =
+         Some ("1", VOk) /\
+         (exists (m : list (str * value)) (c : N),
+            load_db (apply_fops (ds_files nul_state) (firstn 5 nul_plan)) 7 = Some (LOk m c) /\
+            option_map v_val (assoc_get String.eqb nul_key m) = Some "2").
+Proof. exact C11_nul_key_overwritten. Qed.
+Print Assumptions C11_nul_key_overwritten_refuted.
+
+(* a brand-new database between the creation of its keys and values files would panic at start, but no crash point of the harness (kill on entering a write/rename/unlink) lands there *)
+Theorem C11_fresh_db_create_window :
+  let d :=
+           db_of [("a", {| v_val := "1"; v_ver := 0; v_opp := 0; v_st := VNew; v_vaddr := 0; v_kaddr := 0 |})]
+           in
+         DiskInv (d_map d) [] /\
+         load_db (apply_fops [] (firstn 3 (incr_plan d ["a"] [] 5))) 9 = Some LPanic /\
+         (forall (s : sysc) (i : nat),
+          load_db (apply_fops [] (take_before s i (incr_plan d ["a"] [] 5))) 9 <> Some LPanic).
+Proof. exact C11_fresh_db_create_window_panics. Qed.
+Print Assumptions C11_fresh_db_create_window.
